@@ -13,7 +13,7 @@ import (
 func init() {
 	register("C18",
 		"whether the table values are the classical ones beyond the internal laws checked here; liveness of each declared input (an accessor that reads an input but ignores it).",
-		r18_1, r18_2, r18_3, r18_4)
+		r18_1, r18_2, r18_3, r18_4, r18_5)
 }
 
 func r18_1(c *Ctx, r *Report) {
@@ -221,4 +221,17 @@ func r18_3(c *Ctx, r *Report) {
 
 func r18_4(c *Ctx, r *Report) {
 	r11_5(c, r)
+}
+
+func r18_5(c *Ctx, r *Report) {
+	tableIndexRule(c, r, "R18.5", func(fn *ssa.Function) bool {
+		if fn.Signature.Recv() == nil {
+			return false
+		}
+		switch structName(fn.Signature.Recv().Type()) {
+		case "Lunar", "LunarTime":
+			return true
+		}
+		return false
+	}, 60)
 }
